@@ -102,6 +102,7 @@ func (e *Engine) GenVC(fn *ssa.Function, opts VerifyOpts) (res *FuncVC) {
 	if fr.contract != nil && fr.contract.Options["relative-index"] {
 		vc.noRebase = true
 	}
+	vc.binderRange = fr.contract != nil && fr.contract.Options["binder-range"]
 	if fr.contract != nil && fr.contract.Options["heap-closedness"] {
 		vc.closedness = true
 	}
